@@ -775,3 +775,71 @@ Proof.
     + apply IH; auto.
     + destruct tr; discriminate.
 Qed.
+
+(* ---------------------------------------------------------------------- *)
+(* request lengths of huge buffers                                         *)
+
+Lemma request_len_le b n : (request_len b n <= n)%N.
+Proof. unfold request_len. destruct b; [apply N.le_min_l|apply N.le_refl]. Qed.
+
+Lemma request_len_pos b n : (0 < n)%N -> (0 < request_len b n)%N.
+Proof.
+  intros H. unfold request_len. destruct b; [|exact H].
+  apply N.min_glb_lt; [exact H|reflexivity].
+Qed.
+
+Lemma request_len_small b n : (n <= U32_MAX)%N -> request_len b n = n.
+Proof. intros H. unfold request_len. destruct b; [apply N.min_l; exact H|reflexivity]. Qed.
+
+Lemma request_len_huge n : (U32_MAX <= n)%N -> request_len true n = U32_MAX.
+Proof. intros H. unfold request_len. apply N.min_r. exact H. Qed.
+
+Lemma request_len_poll n : request_len false n = n.
+Proof. reflexivity. Qed.
+
+(* a non-empty buffer and a pipe with room: the write moves at least one byte
+   (never Ok(0) / WriteZero), at most the buffer *)
+Lemma write_accepts_pos b p n :
+  (0 < n)%N -> 0 < pipe_free p ->
+  (0 < write_accepts p (request_len b n))%N /\ (write_accepts p (request_len b n) <= n)%N.
+Proof.
+  intros Hn Hf. unfold write_accepts. split.
+  - apply N.min_glb_lt; [apply request_len_pos; exact Hn|].
+    destruct (pipe_free p) as [|f]; [inversion Hf|]. cbn [N.of_nat]. reflexivity.
+  - eapply N.le_trans; [apply N.le_min_l|apply request_len_le].
+Qed.
+
+(* a non-empty capacity and bytes in the pipe: the read returns at least one
+   byte (no premature end of file), at most the capacity *)
+Lemma read_returns_pos b p cap :
+  (0 < cap)%N -> pq p <> [] ->
+  (0 < read_returns p (request_len b cap))%N /\ (read_returns p (request_len b cap) <= cap)%N.
+Proof.
+  intros Hn Hq. unfold read_returns. split.
+  - apply N.min_glb_lt; [apply request_len_pos; exact Hn|].
+    destruct (pq p) as [|x q]; [contradiction|]. cbn [length]. reflexivity.
+  - eapply N.le_trans; [apply N.le_min_l|apply request_len_le].
+Qed.
+
+(* the counts agree with the byte-level pipe reference *)
+Lemma write_accepts_is_pipe_write p d :
+  rclosed p = false -> d <> [] -> 0 < pipe_free p ->
+  snd (pipe_write p d) = WOk (N.to_nat (write_accepts p (N.of_nat (length d)))).
+Proof.
+  intros Hr Hd Hf. unfold pipe_write, write_accepts. destruct d as [|x d]; [contradiction|].
+  rewrite Hr. rewrite <- Nat2N.inj_min, Nat2N.id.
+  destruct (Nat.eqb_spec (Nat.min (length (x :: d)) (pipe_free p)) 0) as [E|E];
+    [cbn [length] in E; lia|reflexivity].
+Qed.
+
+Lemma read_returns_is_pipe_read p k :
+  pq p <> [] -> 0 < k ->
+  exists p' bs, pipe_read p k = (p', ROk bs) /\
+                length bs = N.to_nat (read_returns p (N.of_nat k)).
+Proof.
+  intros Hq Hk. unfold pipe_read, read_returns.
+  destruct (Nat.eqb_spec k 0) as [E|E]; [lia|].
+  destruct (pq p) as [|x q] eqn:Q; [contradiction|].
+  eexists. eexists. split; [reflexivity|].
+  rewrite firstn_length, <- Nat2N.inj_min, Nat2N.id. reflexivity.
+Qed.
